@@ -179,10 +179,14 @@ Qed.
 
 (* ---- experimental tree, validateSandbox ------------------------------------------------------------------------- *)
 
+(* the obligation on the source: isExperimental starts by sending every subrepo label away (seeded r2-m2) *)
+Lemma gen_experimental_guard : is_experimental_subrepo_guard = true.
+Proof. reflexivity. Qed.
+
 Theorem is_experimental_spec dirs l :
   is_experimental dirs l = true <-> l_sub l = [] /\ exists d, In d dirs /\ under d (l_pkg l).
 Proof.
-  unfold is_experimental, experimental_labels.
+  unfold is_experimental, experimental_labels. rewrite gen_experimental_guard. cbn [andb].
   destruct (l_sub l) as [|c r]; cbn [is_nil negb].
   - rewrite existsb_exists. split.
     + intros [e [He Hi]]. apply in_map_iff in He. destruct He as [d [<- Hd]].
